@@ -198,10 +198,17 @@ class Ctx:
     def floor(self, what, found, minimum):
         """Anchor floor: fewer instances than confirmed by hand means the
         analysis lost its anchors (exit 2), never a pass."""
+        if 0 < found < minimum:
+            # some instances are still there: a refactor merged / removed sites that were
+            # confirmed by hand; the rule is not vacuous, what it no longer sees is undecided
+            self.undecided('FLOOR', what, f"found {found} instance(s), {minimum} were confirmed on the pinned tree")
+            self.notes.setdefault('floors', {})[what] = {'found': found, 'min': minimum}
+            return False
         if found < minimum:
             raise AnalysisError(
                 f"anchor floor: {what}: found {found}, expected >= {minimum}")
         self.notes.setdefault('floors', {})[what] = {'found': found, 'min': minimum}
+        return True
 
     def assume(self, text):
         if text not in self.assumptions:
